@@ -56,8 +56,8 @@ def _load_c04():
     return [C04()]
 
 
-register("C04", _load_c04, {"quick": {"runs": 4000, "wall": 120},
-                            "thorough": {"runs": 150000, "wall": 1800}})
+register("C04", _load_c04, {"quick": {"runs": 24000, "wall": 120},
+                            "thorough": {"runs": 900000, "wall": 1800}})
 
 
 def _load_c09():
